@@ -33,7 +33,7 @@ ASSUMPTIONS = [
     'energy_balance=True only with phases l/g at 300-350 K (the property is about material; the energy side is C02)',
     'only per-chemical totals over phases are compared (which phase the material lands in is C12); negative / stored-zero entries are a state invariant',
     'copy_flow: only the moved material is compared (destination entries outside the moved set may be overwritten by the documented "copy" semantics)',
-    'n = 3 inlets: quick uses a 12-template sub-menu, thorough the quick menu (58 templates); n <= 2 uses the full menu of the tier',
+    'n = 3 inlets: quick uses a 12-template sub-menu, thorough a 24-template sub-menu; n <= 2 uses the full menu of the tier (58 / 114 templates)',
     'vle=True mixing is not explored here (C03/C04 drive the flash)',
 ]
 TOLERANCES = {'flow_equality': 0.0}
@@ -144,12 +144,15 @@ class St:
 # layer 1a: mixing
 
 def menu(level):
-    """inlet templates; level 'mini' < 'quick' < 'full' (each a subset of the next)"""
+    """inlet templates; level 'mini' < 'mid' < 'quick' < 'full' (each a subset of the next)"""
     out = []
     if level == 'mini':
         return [('S', 'A', 'l', 4), ('S', 'A', 'g', 2), ('S', 'B', 'l', 2), ('S', 'B', 's', 2), ('S', 'A', 'L', 0), ('S', 'A', 'S', 4),
                 ('M', 'A', ('g', 'l'), 'both', 4), ('M', 'B', ('g', 'l'), 'first', 2), ('M', 'B', ('l', 's'), 'both', 2),
                 ('M', 'A', ('L', 'l'), 'second', 2), ('M', 'A', ('g', 'l'), 'first', 0), ('S', 'B', 'g', 0)]
+    if level == 'mid':
+        q = menu('quick'); mini = menu('mini')
+        return mini + [t for j, t in enumerate(q) if t not in mini and j % 4 == 1][:12]
     for pkg in ('A', 'B'):
         vis = QUICK_V[pkg] if level == 'quick' else range(len(VEC[pkg]))
         for p in SINGLE_PHASES:
@@ -217,7 +220,7 @@ class Mix(System):
         if t1 is None: return [()]
         tier = self._tier
         m2 = menu('quick' if tier == 'quick' else 'full')
-        m3 = menu('mini' if tier == 'quick' else 'quick')
+        m3 = menu('mini' if tier == 'quick' else 'mid')
         if eb:
             ok = lambda t: all(p in 'lg' for p in (t[2] if t[0] == 'S' else ''.join(t[2])))
             m2 = [t for t in m2 if ok(t)]; m3 = [t for t in m3 if ok(t)]
@@ -661,6 +664,9 @@ class History(System):
                     if any(st.pk[o] == 'B' and st.pk[f] == 'A' for o in (o1, o2)): continue
                     # a single-phase feed split into a multi-phase outlet is not supported by Stream.split_to (classified at depth 1)
                     if not isinstance(st.s[f], t.MultiStream) and any(isinstance(st.s[o], t.MultiStream) for o in (o1, o2) if o != f): continue
+                    # a multi-phase feed assigns its phase set to the outlets: the new set must hold the outlet's phase / every
+                    # non-empty phase of the outlet (the precondition of the `phases` setter, C12)
+                    if isinstance(st.s[f], t.MultiStream) and any(not self._phases_within(st.s[o], st.s[f]) for o in (o1, o2) if o != f): continue
                     nf = len(VEC[st.pk[f]][0])
                     acts.append(('split', f, o1, o2, ('sc', 0.25)))
                     acts.append(('split', f, o1, o2, ('vec', (1., 0., 0.5)[:nf])))
@@ -669,6 +675,7 @@ class History(System):
             for p in range(n):
                 if mx == p: continue
                 if st.pk[mx] == 'B' and st.pk[p] == 'A': continue
+                if isinstance(st.s[mx], t.MultiStream) and not self._phases_within(st.s[p], st.s[mx]): continue
                 if self._contained(st, p, mx): acts.append(('sep', mx, p))
         for d in range(n):
             for s_ in range(n):
@@ -679,6 +686,14 @@ class History(System):
         for i in range(n):
             for k in (0.5, 3., 0.): acts.append(('scale', i, k))
         return acts
+
+    @staticmethod
+    def _phases_within(o, f):
+        t = fixtures.tmo()
+        fph = {q.lower() for q in f.phases}
+        if isinstance(o, t.MultiStream):
+            return all(ph.lower() in fph for ph, v in fixtures.dense(o).items() if v.any())
+        return o.phase.lower() in fph
 
     def _contained(self, st, p, mx):
         t = fixtures.tmo()
@@ -758,6 +773,10 @@ class History(System):
             en = type(e).__name__
             if op == 'copy' and isinstance(e, ValueError) and 'same chemicals' in str(e):
                 raise Rejected('copy_flow:multi-dst-other-package', cut=False)
+            if op == 'copy' and en == 'UndefinedPhase' and isinstance(S[a[1]], t.MultiStream) and not isinstance(S[a[2]], t.MultiStream) \
+               and S[a[2]].phase.lower() not in {q.lower() for q in S[a[1]].phases}:
+                # MultiStream.copy_flow empties the destination before it looks the source's phase up: the transition is cut
+                raise Rejected('copy_flow:phase-absent-in-destination', cut=True)
             raise Violation('unexpected-exception', f'{a!r} raised {en}: {e}', match=dict(match, exc=en, where=where(e)),
                             detail=dict(cacheA=len(th('A').chemicals._index_cache), cacheB=len(th('B').chemicals._index_cache)))
         partial = new.pop('partial_dst', None)
